@@ -527,6 +527,10 @@ def _oracle(plan, sr, stream, frame, nc, fs, B0, B1, log, probe, sigbase):
         neg2 = rd("[-M-5:2]", lambda: sr[-M - 5:2])
         if neg2.shape[0] != 2 or not np.array_equal(neg2, expect(slice(0, 2))):
             raise Violation("C11.O3", f"{sigbase}:neg-slice-start", f"sr[-M-5:2] returned {neg2.shape[0]} rows")
+    if M >= 2:
+        back = rd("[::-1]", lambda: sr[::-1])           # decreasing slice: the same frames, last first
+        if back.shape[0] != M or not np.array_equal(back, expect(slice(0, M))[::-1]):
+            raise Violation("C11.O3", f"{sigbase}:reversed", f"sr[::-1] returned {back.shape[0]} rows / wrong values; {M} frames present")
     dd, ss = rd("read()", lambda: sr.read())            # defaults: first 10000 samples + sync
     k = min(M, 10000)
     if dd.shape[0] != k or ss.shape[0] != k or not np.array_equal(dd, expect(slice(0, k))):
